@@ -128,6 +128,12 @@ func matchKnown(known []knownFinding, prop, class string) *knownFinding {
 		if k.Signature == class {
 			return k
 		}
+		// (the last element of a time finding's signature is the function that holds the loop: a
+		// refactoring that only changes the case of its name – JSONGetItems made private – has not
+		// repaired the defect and has not introduced a new one)
+		if strings.HasPrefix(class, prop+"/time/") && strings.EqualFold(k.Signature, class) {
+			return k
+		}
 		if strings.HasSuffix(k.Signature, "*") && strings.HasPrefix(class, strings.TrimSuffix(k.Signature, "*")) {
 			return k
 		}
@@ -324,6 +330,11 @@ func check(propID, tier string) int {
 		// materialise the tape when the run died before reporting it
 		if plan.Tape == nil && len(plan.Case) == 0 && plan.Entry == "" {
 			mat := materialise(ev, plan)
+			for try := 0; mat == nil && ev.race && try < 4; try++ {
+				// (whether ThreadSanitizer still holds the earlier access in its shadow memory when the
+				// later one happens varies between executions of the same schedule: try again)
+				mat = materialise(ev, plan)
+			}
 			if mat == nil {
 				hard = append(hard, fmt.Sprintf("class %s: death of run %s did not reproduce when re-run alone: %s", class, plan.Mode, f.detail))
 				continue
